@@ -310,3 +310,105 @@ theorem argminGo_spec (pre rest : List α) (best : α) (bi : Nat)
 
 end more
 end BVMat
+
+namespace BVMat
+section affine
+variable {α : Type} [Field α] [LinearOrder α] [IsStrictOrderedRing α]
+
+/-! ### mean and variance under a general affine map `x ↦ s·x + m` (what `unscale()` applies) -/
+
+theorem sumL_map_affine (s m : α) (l : List α) :
+    sumL (l.map (fun x => s * x + m)) = s * sumL l + (l.length : α) * m := by
+  induction l with
+  | nil => simp [sumL]
+  | cons a l ih =>
+    simp only [List.map_cons, sumL, ih, List.length_cons, Nat.cast_succ]
+    ring
+
+theorem meanL_map_affine {l : List α} (h : l ≠ []) (s m : α) :
+    meanL (l.map (fun x => s * x + m)) = s * meanL l + m := by
+  have hn := length_cast_ne_zero (α := α) h
+  unfold meanL
+  rw [sumL_map_affine, List.length_map]
+  field_simp
+
+theorem varL_map_affine {l : List α} (h : l ≠ []) (s m : α) :
+    varL (l.map (fun x => s * x + m)) = s * s * varL l := by
+  unfold varL
+  rw [meanL_map_affine h]
+  unfold meanL
+  simp only [List.length_map, List.map_map]
+  have : ((fun x => (x - (s * (sumL l / (l.length : α)) + m)) * (x - (s * (sumL l / (l.length : α)) + m))) ∘
+        fun x => s * x + m)
+      = fun x => (s * s) * ((x - sumL l / (l.length : α)) * (x - sumL l / (l.length : α))) := by
+    funext x; simp only [Function.comp]; ring
+  rw [this, sumL_map_mul_left]
+  ring
+
+/-! ### permutations of the taxa -/
+
+theorem filterMap_range_getElem? {β : Type} (c : List β) :
+    (List.range c.length).filterMap (fun i => c[i]?) = c := by
+  induction c with
+  | nil => rfl
+  | cons a c ih =>
+    rw [List.length_cons, List.range_succ_eq_map, List.filterMap_cons]
+    simp only [List.getElem?_cons_zero, List.filterMap_map]
+    congr 1
+
+/-- `numpy.take` with a permutation of all positions permutes the list -/
+theorem take_perm {β : Type} (idx : List Nat) (c : List β) (h : idx.Perm (List.range c.length)) :
+    (Np.take idx c).Perm c := by
+  unfold Np.take
+  have := h.filterMap (fun i => c[i]?)
+  rw [filterMap_range_getElem?] at this
+  exact this
+
+theorem present_perm {c d : Col α} (h : c.Perm d) : (present c).Perm (present d) :=
+  h.filterMap id
+
+theorem sumL_perm {l r : List α} (h : l.Perm r) : sumL l = sumL r := by
+  rw [sumL_eq_sum, sumL_eq_sum]; exact h.sum_eq
+
+theorem meanL_perm {l r : List α} (h : l.Perm r) : meanL l = meanL r := by
+  unfold meanL; rw [sumL_perm h, h.length_eq]
+
+theorem varL_perm {l r : List α} (h : l.Perm r) : varL l = varL r := by
+  unfold varL
+  rw [meanL_perm h]
+  exact meanL_perm (h.map _)
+
+theorem isEmpty_perm {β : Type} {l r : List β} (h : l.Perm r) : l.isEmpty = r.isEmpty := by
+  cases l with
+  | nil => rw [h.nil_eq]
+  | cons a l =>
+    cases r with
+    | nil => exact absurd h.symm.nil_eq (by simp)
+    | cons b r => rfl
+
+theorem nanmean_perm {c d : Col α} (h : c.Perm d) : nanmean c = nanmean d := by
+  have hp := present_perm h
+  unfold nanmean
+  rw [meanL_perm hp]
+  rw [isEmpty_perm hp]
+
+theorem nanvar_perm {c d : Col α} (h : c.Perm d) : nanvar c = nanvar d := by
+  have hp := present_perm h
+  unfold nanvar
+  rw [varL_perm hp]
+  rw [isEmpty_perm hp]
+
+/-- `from_numpy` commutes with a permutation of the taxa: same location and scale, stored values
+    permuted in the same way -/
+theorem fromNumpyCol_take_perm (sq : α → α) (idx : List Nat) (c : Col α)
+    (h : idx.Perm (List.range c.length)) :
+    fromNumpyCol sq (Np.take idx c) =
+      { mat := Np.take idx (fromNumpyCol sq c).mat, loc := (fromNumpyCol sq c).loc,
+        scale := (fromNumpyCol sq c).scale } := by
+  have hp := take_perm idx c h
+  unfold fromNumpyCol nanstd
+  rw [nanmean_perm hp, nanvar_perm hp]
+  simp only [take_map]
+
+end affine
+end BVMat
